@@ -101,6 +101,7 @@ pub fn run_shard(prop: &Prop, tier: Tier, shard: usize, n: usize, out: &PathBuf,
     ctx.known_keys = known.iter().filter(|k| k.is_known).map(|k| k.key.clone()).collect();
     ctx.known_keys.sort();
     ctx.known_keys.dedup();
+    ctx.foreign_keys = std::env::var("H8V_FOREIGN_KEYS").unwrap_or_default().split(',').filter(|x| !x.is_empty()).map(|x| x.to_string()).collect();
     // canary (DESIGN.md §4.3): the comparison itself must be able to fail.  For the ISA-level properties
     // shard 0 perturbs the reference of three fixed cases in three ways and requires nine mismatches.
     if shard == 0 && matches!(prop.id, "C01" | "C02" | "C03" | "C04" | "C05" | "C06" | "C07" | "C08") {
